@@ -4,10 +4,10 @@ property's quick check against it and archives it as /verif/seeded/<id>/ {patch.
 import sys, os, subprocess, json, shutil, tempfile, re
 ROOT = os.environ.get('VERIF_ROOT', '/verif'); SRC = sys.argv[1]
 only = set(sys.argv[2:])
-for name in sorted(os.listdir(SRC)):
+def one(name):
     d = os.path.join(SRC, name)
-    if not re.fullmatch(r'C\d\d_[a-z]', name) or not os.path.exists(os.path.join(d, 'patch.diff')): continue
-    if only and name not in only: continue
+    if not re.fullmatch(r'C\d\d_[a-z]', name) or not os.path.exists(os.path.join(d, 'patch.diff')): return
+    if only and name not in only: return
     prop = name.split('_')[0]
     w = tempfile.mkdtemp(prefix='mutrun.')
     try:
@@ -15,7 +15,7 @@ for name in sorted(os.listdir(SRC)):
             p = os.path.join('/repo', x)
             (shutil.copytree if os.path.isdir(p) else shutil.copy)(p, os.path.join(w, x))
         r = subprocess.run(['patch', '-s', '-p1', '-i', os.path.join(d, 'patch.diff')], cwd=w, capture_output=True, text=True)
-        if r.returncode: print(name, 'PATCH FAILED'); continue
+        if r.returncode: print(name, 'PATCH FAILED'); return
         env = dict(os.environ, PYTHONPATH=os.path.join(w, 'src'), PYTHONDONTWRITEBYTECODE='1')
         t = subprocess.run(['/venv/bin/python', '-m', 'pytest', '-q', '-p', 'no:cacheprovider'], cwd=w, env=env, capture_output=True, text=True).stdout.strip().splitlines()[-1]
         clean = subprocess.run(['/venv/bin/python', os.path.join(d, 'demo.py')], env=dict(os.environ, PYTHONPATH='/repo/src'), capture_output=True, text=True).returncode
@@ -39,3 +39,14 @@ for name in sorted(os.listdir(SRC)):
         print(name, 'confirmed' if confirmed else 'NOT-CONFIRMED', 'detected' if c.returncode == 1 else f'MISSED(exit {c.returncode})', 'deductive' if ded else 'bounded-only', flush=True)
     finally:
         shutil.rmtree(w, ignore_errors=True)
+
+
+if __name__ == '__main__':
+    # seeds of one property run one after the other (they share the property's evidence file); properties run side by side
+    from concurrent.futures import ThreadPoolExecutor
+    names = sorted(os.listdir(SRC)); props = sorted({n.split('_')[0] for n in names})
+
+    def per_prop(p):
+        for n in names:
+            if n.split('_')[0] == p: one(n)
+    with ThreadPoolExecutor(int(os.environ.get('SEED_JOBS', '5'))) as ex: list(ex.map(per_prop, props))
